@@ -4,7 +4,7 @@ Run after a legitimate change of /repo (e.g. a fix: commit)."""
 import ast, json, sys
 from pathlib import Path
 sys.path.insert(0, str(Path(__file__).resolve().parent.parent))
-from hsa import alpha
+from hsa import alpha, canon
 root = Path("/repo")
 files = {}
 for sub in ("hdl21", "pdks/Sky130/sky130_hdl21", "pdks/Gf180/gf180_hdl21", "pdks/Asap7/asap7_hdl21"):
@@ -13,6 +13,7 @@ for sub in ("hdl21", "pdks/Sky130/sky130_hdl21", "pdks/Gf180/gf180_hdl21", "pdks
         if "/tests/" in rel or p.name.startswith("test_") or "digital_cells" in rel or "/scripts/" in rel:
             continue
         files[rel] = ast.parse(p.read_text())
+        canon.canonicalise(files[rel], None, None)
 ref = alpha.build_reference(files)
 alpha.REF_FILE.write_text(json.dumps(ref, indent=0, sort_keys=True))
-print(len(ref), "files,", sum(len(v) for v in ref.values()), "functions")
+print(len(ref), "files,", sum(len(v) - 1 for v in ref.values()), "functions")
